@@ -19,7 +19,7 @@ ID = "C06"
 LEVEL = "exploration"
 TECHNIQUE = "deterministic simulation of isolated write episodes through the real client API, serializer, fragmented simulated network, server handler, framing, router and driver; before/after snapshots of every element of every device against INDI write semantics"
 RULE = ("scenario = generated multi-device deployment x sequence of write episodes (settle, snapshot, one client assigns values to a non-empty "
-        "element subset of one writable property and submits, settle, snapshot) x network knobs; distinct = different signature (vector "
+        "element subset of one writable property and submits, settle, snapshot), optionally separated by history (re-handshake, property/group off and on) x network knobs; distinct = different signature (vector "
         "kind, rule, number format class, subset size, net knobs, #devices); non-trivial = at least one episode whose message reached the driver")
 COMPONENTS = c01.COMPONENTS
 ASSUMPTIONS = [
@@ -56,8 +56,9 @@ def generate(seed, tier, index):
                              max_depth=2, all_min_max=True)
             specs.append(s)
             break
-    if ndev >= 2 and rng.random() < 0.3:
-        specs[1] = G.clone_as_second_instance(specs[0], "DEV1")  # two instances of one driver class
+    twin = ndev >= 2 and rng.random() < 0.3
+    if twin:
+        del specs[1]
     # make sure something is writable
     tries = 0
     while not _writable(specs) and tries < 20:
@@ -68,9 +69,25 @@ def generate(seed, tier, index):
                 v["enabled"] = True
                 v["perm"] = "rw"
         tries += 1
+    if twin:
+        # two instances of one driver class (made from the final DEV0: a twin of a discarded draft would share DEV0's class
+        # and its class-level name while the scenario describes something else)
+        specs.insert(1, G.clone_as_second_instance(specs[0], "DEV1"))
     nclients = rng.choice([1, 1, 2])
     steps = [{"op": "start_client", "c": c} for c in range(nclients)]
+    all_vecs = [(sp["name"], g["name"], v) for sp in specs for g in G.effective_groups(sp).values() for v in g["vectors"].values()]
     for _ in range(rng.randint(1, 10 if thorough else 5)):
+        if rng.random() < 0.35:
+            # history between two episodes (each episode starts from quiescence): properties and groups switched off and on
+            # at run time, another handshake of a client - none of which may change what a later write does
+            dn, gn, hv = rng.choice(all_vecs)
+            r = rng.random()
+            if r < 0.4:
+                steps.append({"op": "c_handshake", "c": rng.randrange(nclients), "device": rng.choice([None, dn]), "name": None})
+            elif r < 0.8:
+                steps.append({"op": "d_venable", "dev": dn, "vec": hv["name"], "value": rng.random() < 0.5})
+            else:
+                steps.append({"op": "d_genable", "dev": dn, "group": gn, "value": rng.random() < 0.5})
         d, v = rng.choice(_writable(specs))
         els = [e for e in v["elements"].values() if e["enabled"]]
         chosen = rng.sample(els, rng.randint(1, len(els)))
@@ -140,6 +157,11 @@ def execute(scen):
                 break
             if st["op"] == "start_client":
                 apply_step(stack, st)
+                continue
+            if st["op"] != "write":
+                sim.settle()
+                apply_step(stack, st)
+                probes["history_between_episodes:" + st["op"]] = probes.get("history_between_episodes:" + st["op"], 0) + 1
                 continue
             sim.settle()
             before = snapshot(stack)
@@ -241,8 +263,10 @@ def execute(scen):
             truth = stack.truth(st["dev"])
             c01.compare_view(sim, node.name, node.client, node.model, node.handshakes, stack, st["dev"], truth, v2, f2, node.applied)
             for x in v2:
-                if x["facts"].get("kind") == "BLOB" and (x["clause"] == "C01.state" or x["facts"].get("missing_payload")):
-                    continue  # BLOB vector state / payload presence across two connections is C01's known territory (K01-K06)
+                fx = x["facts"]
+                if fx.get("kind") == "BLOB" and (x["clause"] == "C01.state" or (fx.get("missing_payload") and (
+                        fx.get("cross_connection_inversion") or fx.get("published_before_enableblob_only") or fx.get("redefined_by_getproperties")))):
+                    continue  # BLOB vector state / payload presence across the two connections' races is C01's known territory (K01-K06)
                 x = dict(x, clause="C06.view", detail=x["detail"] + "; after " + ctx)
                 viol.append(x)
                 break
